@@ -30,9 +30,20 @@ def call_fn(name, *args):
 
 
 def compile_dict(cells, default_sheet='Sheet1'):
+    """read_and_parse_dict over the cells in one of three ARRANGEMENTS of
+    the same dictionary (as given, reversed, sorted by address downwards),
+    chosen by a hash of the content: which key comes first - formulas before
+    the cells they use, sheets interleaved - must not matter."""
+    import zlib
     xl = lib()
+    items = list(dict(cells).items())
+    k = zlib.crc32(repr(sorted(map(repr, items))).encode()) % 3
+    if k == 1:
+        items.reverse()
+    elif k == 2:
+        items.sort(key=lambda kv: kv[0], reverse=True)
     return xl.ModelCompiler().read_and_parse_dict(
-        dict(cells), default_sheet=default_sheet)
+        dict(items), default_sheet=default_sheet)
 
 
 def evaluate(model, addr, evaluator=None):
